@@ -1,6 +1,6 @@
 /-
 C02 (decoders are total): checked-index models of the GPOS subtable readers of lookup types 1–3
-`readGpos1_1`, `readGpos1_2`, `readGpos2_1`, `readGpos2_2`, `readGpos3_1`
+`readGpos1_1`, `readGpos1_2`, `readGpos2_1`, `readGpos2_2`, `readGpos3_1` and of `readGpos5_1` (gpos5.go)
 (opentype/gtab/gpos.go:85-740) with `readValueRecord` (valuerecord.go:46-106), of the dispatcher
 `readGposSubtable` (gpos.go:34-54, as repaired in /repo 8867078), of `anchor.Read` (opentype/anchor/anchor.go:35-59) and of
 `markarray.Read` (opentype/markarray/markarray.go:36-71), as the code stands in the working tree.
@@ -300,6 +300,129 @@ def read31 (b : Bytes) (pos : Nat) :
   let p ← prune "gpos.go:735#records[:len(cov)]" cv.1 r.1 (cadd r.2 cv.2)
   pure (p.1, p.2.mem 1)
 
+/-! ## GPOS 5.1 (opentype/gtab/gpos5.go:36-149, as repaired in /repo 33f30d8) -/
+
+/-- gpos5.go:127-135: one component record, `fuel` mark classes from class `k` on -/
+def rowLoop51 (b : Bytes) (lap : Nat) (ao : List Nat) : Nat → Nat → List Anchor → Cost →
+    Outcome (List Anchor × Cost)
+  | 0, _, acc, c => .ok (acc.reverse, c)
+  | fuel+1, k, acc, c => do
+    let o ← idx "gpos5.go:128#anchorOffsets[k]" ao k
+    let a ← anchorOpt b lap o c.tick
+    rowLoop51 b lap ao fuel (k + 1) (a.1 :: acc) a.2
+
+/-- gpos5.go:125-138: the components of one ligature; `ao` = the anchor offsets not yet consumed -/
+def compLoop (b : Bytes) (lap mcc : Nat) : Nat → List Nat → List (List Anchor) → Cost →
+    Outcome (List (List Anchor) × Cost)
+  | 0, _, acc, c => .ok (acc.reverse, c)
+  | fuel+1, ao, acc, c => do
+    let c ← mkSlice "gpos5.go:126#make([]anchor.Table, markClassCount)" mcc c.tick
+    let row ← rowLoop51 b lap ao mcc 0 [] c
+    let ao ← slice "gpos5.go:137#anchorOffsets[markClassCount:]" ao mcc ao.length
+    compLoop b lap mcc fuel ao (row.1 :: acc) row.2
+
+/-- gpos5.go:93-141: one LigatureAttach table per ligature; the offsets may all point at ONE table -/
+def ligLoop (b : Bytes) (lap0 mcc : Nat) (offsets : List Nat) : Nat → Nat →
+    List (List (List Anchor)) → Cost → Outcome (List (List (List Anchor)) × Cost)
+  | 0, _, acc, c => .ok (acc.reverse, c)
+  | fuel+1, i, acc, c => do
+    let off ← idx "gpos5.go:94#offsets[i]" offsets i
+    let cc ← readU16 "gpos5.go:100#ReadUint16" b (lap0 + off)
+    -- gpos5.go:104-105 `numOffsets := uint(componentCount) * uint(markClassCount)`, cap 32764
+    if cc * mcc > 32764 then .err "invalid" else
+    let c ← mkSlice "gpos5.go:116#make([]uint16, numOffsets)" (cc * mcc) (c.tick 2)
+    let ao ← readWords "gpos5.go:118#ReadUint16" b (cc * mcc) (lap0 + off + 2) [] c
+    let c ← mkSlice "gpos5.go:124#make([][]anchor.Table, componentCount)" cc ao.2
+    let la ← compLoop b (lap0 + off) mcc cc ao.1 [] c
+    ligLoop b lap0 mcc offsets fuel (i + 1) (la.1 :: acc) la.2
+
+/-- what `readGpos5_1` has when the ligature loop starts -/
+structure Top51 where
+  markCov : List (Nat × Nat)
+  ligCov : List (Nat × Nat)
+  marks : List (Nat × Anchor)
+  lap0 : Nat
+  mcc : Nat
+  offsets : List Nat
+  cost : Cost
+
+/-- gpos5.go:37-92 -/
+def top51 (b : Bytes) (pos : Nat) : Outcome Top51 := do
+  let buf ← readBytes "gpos5.go:37#ReadBytes(10)" b (pos + 2) 10
+  let mco ← w16 "gpos5.go:41#buf[0],buf[1]" buf 0
+  let lco ← w16 "gpos5.go:42#buf[2],buf[3]" buf 2
+  let mcc ← w16 "gpos5.go:43#buf[4],buf[5]" buf 4
+  let mao ← w16 "gpos5.go:44#buf[6],buf[7]" buf 6
+  let lao ← w16 "gpos5.go:45#buf[8],buf[9]" buf 8
+  let mcv ← coverageRead b (pos + mco)
+  let lcv ← coverageRead b (pos + lco)
+  let ma ← markarrayRead b (pos + mao) mcv.1.length
+  let c := cadd (cadd (cadd Cost.zero.tick mcv.2) lcv.2) ma.2
+  -- gpos5.go:60-64
+  let pm ← (if mcv.1.length > ma.1.length then
+      (.ok ((mcv.1.filter (fun p => p.2 < ma.1.length), ma.1), c.tick mcv.1.length) :
+        Outcome ((List (Nat × Nat) × List (Nat × Anchor)) × Cost))
+    else do
+      let m ← slice "gpos5.go:63#markArray[:len(markCov)]" ma.1 0 mcv.1.length
+      pure ((mcv.1, m), c))
+  let lc0 ← readU16 "gpos5.go:73#ReadUint16" b (pos + lao)
+  -- gpos5.go:77-81 `if int(ligCount) > len(ligCov) { ligCount = uint16(len(ligCov)) } else { ligCov.Prune(int(ligCount)) }`
+  let lc := if lc0 > lcv.1.length then lcv.1.length % 65536 else lc0
+  let lcov := if lc0 > lcv.1.length then lcv.1 else lcv.1.filter (fun p => p.2 < lc0)
+  let c := if lc0 > lcv.1.length then pm.2.tick else pm.2.tick (1 + lcv.1.length)
+  let c ← mkSlice "gpos5.go:84#make([]uint16, ligCount)" lc c
+  let o ← readWords "gpos5.go:86#ReadUint16" b lc (pos + lao + 2) [] c
+  let c ← mkSlice "gpos5.go:92#make([][][]anchor.Table, ligCount)" lc o.2
+  pure ⟨pm.1.1, lcov, pm.1.2, pos + lao, mcc, o.1, c⟩
+
+/-- `readGpos5_1(p, subtablePos)` (repaired): mark coverage, ligature coverage, mark array,
+ligature array indexed by (ligature, component, mark class) -/
+def read51 (b : Bytes) (pos : Nat) : Outcome ((List (Nat × Nat) × List (Nat × Nat) ×
+    List (Nat × Anchor) × List (List (List Anchor))) × Cost) := do
+  let t ← top51 b pos
+  let la ← ligLoop b t.lap0 t.mcc t.offsets t.offsets.length 0 [] t.cost
+  pure ((t.markCov, t.ligCov, t.marks, la.1), la.2.mem 1)
+
+/-! ### the code before the repair (kept only to state the finding)
+
+Inside the component loop the old code indexed the per-ligature `offsets` of the LigatureArray
+(length ligCount) with the mark class (gpos5.go:109 `offsets[j]`) and stored each row under the
+ligature index (gpos5.go:117 `ligAttach[i] = row`, `ligAttach` of length componentCount). -/
+
+def rowLoopOld (b : Bytes) (lap : Nat) (offsets : List Nat) : Nat → Nat → List Anchor → Cost →
+    Outcome (List Anchor × Cost)
+  | 0, _, acc, c => .ok (acc.reverse, c)
+  | fuel+1, j, acc, c => do
+    let o ← idx "gpos5.go:109#offsets[j]" offsets j
+    let a ← anchorOpt b lap o c.tick
+    rowLoopOld b lap offsets fuel (j + 1) (a.1 :: acc) a.2
+
+def compLoopOld (b : Bytes) (lap mcc i : Nat) (offsets : List Nat) : Nat → List (List Anchor) →
+    Cost → Outcome (List (List Anchor) × Cost)
+  | 0, la, c => .ok (la, c)
+  | fuel+1, la, c => do
+    let c ← mkSlice "gpos5.go:107#make([]anchor.Table, markClassCount)" mcc c.tick
+    let row ← rowLoopOld b lap offsets mcc 0 [] c
+    let la ← setAt "gpos5.go:117#ligAttach[i]" la i row.1
+    compLoopOld b lap mcc i offsets fuel la row.2
+
+def ligLoopOld (b : Bytes) (lap0 mcc : Nat) (offsets : List Nat) : Nat → Nat →
+    List (List (List Anchor)) → Cost → Outcome (List (List (List Anchor)) × Cost)
+  | 0, _, acc, c => .ok (acc.reverse, c)
+  | fuel+1, i, acc, c => do
+    let off ← idx "gpos5.go:94#offsets[i]" offsets i
+    let cc ← readU16 "gpos5.go:100#ReadUint16" b (lap0 + off)
+    let c ← mkSlice "gpos5.go:104#make([][]anchor.Table, componentCount)" cc (c.tick 2)
+    let la ← compLoopOld b (lap0 + off) mcc i offsets cc (List.replicate cc []) c
+    ligLoopOld b lap0 mcc offsets fuel (i + 1) (la.1 :: acc) la.2
+
+/-- `readGpos5_1` BEFORE the repair of /repo 33f30d8 -/
+def read51Old (b : Bytes) (pos : Nat) : Outcome ((List (Nat × Nat) × List (Nat × Nat) ×
+    List (Nat × Anchor) × List (List (List Anchor))) × Cost) := do
+  let t ← top51 b pos
+  let la ← ligLoopOld b t.lap0 t.mcc t.offsets t.offsets.length 0 [] t.cost
+  pure ((t.markCov, t.ligCov, t.marks, la.1), la.2.mem 1)
+
 /-! ## readGposSubtable -/
 
 inductive Sub where
@@ -308,9 +431,11 @@ inductive Sub where
   | s21 (cov : List (Nat × Nat)) (sets : List PairSet)
   | s22 (cov : List Nat) (cd1 cd2 : List (Nat × Nat)) (rows : List (List (VR × VR)))
   | s31 (cov : List (Nat × Nat)) (recs : List (Anchor × Anchor))
+  | s51 (markCov ligCov : List (Nat × Nat)) (marks : List (Nat × Anchor))
+      (ligs : List (List (List Anchor)))
 
 /-- the keys of `gposReaders` (gpos.go:57-73) whose readers are not modelled here -/
-def otherKeys : List Nat := [41, 51, 61, 71, 72, 73, 81, 82, 83, 91]
+def otherKeys : List Nat := [41, 61, 71, 72, 73, 81, 82, 83, 91]
 
 /-- the dispatch on the key, shared by the repaired and the old dispatcher -/
 def dispatchKey (b : Bytes) (pos key : Nat) : Outcome (Sub × Cost) :=
@@ -329,6 +454,9 @@ def dispatchKey (b : Bytes) (pos key : Nat) : Outcome (Sub × Cost) :=
   else if key = 31 then do
     let r ← read31 b pos
     pure (.s31 r.1.1 r.1.2, r.2.tick)
+  else if key = 51 then do
+    let r ← read51 b pos
+    pure (.s51 r.1.1 r.1.2.1 r.1.2.2.1 r.1.2.2.2, r.2.tick)
   else if otherKeys.contains key then .err "other"
   else .err "invalid"
 
